@@ -395,6 +395,16 @@ def c11(res, rng, tier, replay=None):
     res.rule = ('ExprGen globs biased to invariant shapes x sampled paths + the reported text itself; non-trivial = distinct (glob, path); '
                 'tie: text() impl vs model; oracle: invariant text => every matched path equals it, and it matches unless a class lists `/`; '
                 'two distinct matched paths => variant')
+    # the table hypothesis of C11_unique, over all code points: a character without casing is only folded to itself
+    fold = open(os.path.join(W.TABLES, 'fold.tbl')).read().strip()
+    casing = set(int(c) for c in open(os.path.join(W.TABLES, 'casing.tbl')).read().strip().split(',') if c)
+    folded = [int(item.split(':')[0]) for item in fold.split(';') if item]
+    res.count('code points with a case folding orbit', len(folded))
+    bad = [c for c in folded if c not in casing]
+    res.evaluations += 1
+    if bad:
+        res.tie_fail('C11 table hypothesis: characters that fold to another character but are reported as caseless',
+                     {'characters': [chr(c) for c in bad[:20]], 'count': len(bad)})
     exprs = gen_exprs(rng, n // 2)
     g = G.ExprGen(rng, wild=0.02, maxdepth=2)
     inv_lits = ['a', 'b', 'ab', '.', '..', 'é', '1', 'x.txt', 'ǅ', 'K', 'ß']
